@@ -621,7 +621,9 @@ impl<T> OptionParser<T> {
     ///
     /// `check_invariants` indicates problems with panic
     pub fn check_invariants(&self, _cosmetic: bool) {
-        self.inner.meta().positional_invariant_check(true);
+        let meta = self.inner.meta();
+        meta.positional_invariant_check(true);
+        meta.adjacent_invariant_check();
     }
 
     /// Customize parser for `--help`
